@@ -60,8 +60,31 @@ MANIFEST = dict(
         "type and batch-wise over sparse batches; after every op the independence flags of every container are compared with the model's use-counts) "
         "on unsigned, RealVector, CompressedRealVector and user-struct elements and on WeightedLabeledData under ASan/UBSan, plus an independent "
         "in-harness oracle that keeps a flat std::vector beside every dataset, re-reads every state through the const and non-const element/batch "
-        "proxies and repeats every iterator jump on Data<I>, Data<label> (const and non-const) and LabeledData iterators with +=, -=, +, ++/--."),
-  note=TRUST + "covered by the correspondence and the oracle only (modelled, no theorem): Data(n, x, m) being filled through the element iterator, "
+        "proxies and repeats every iterator jump on Data<I>, Data<label> (const and non-const) and LabeledData iterators with +=, -=, +, ++/--. "
+        "(J) INDEX WIDTH -- what the theorems assume: every index, position, size and batch count is an unbounded Nat in the models, i.e. the C++ "
+        "keeps them in std::size_t / std::ptrdiff_t and the element count stays below 2^64.  The first half is a regenerated obligation: "
+        "translate/index_types.py lists (clang AST, on every run) every integer-typed field, variable, parameter, typedef, function result and "
+        "explicit cast of Dataset.h, Impl/Dataset.inl, DataView.h, WeightedDataset.h, BatchInterface.h, Core/utility/Iterators.h and functional.h "
+        "(about 300 declarations: DataView::Index, the positions of DataElementIterator / DataView::IteratorBase / IndexingIterator, loop counters, "
+        "getPartitioning, IndexSet) and Gen/IndexTypes.lean proves each 64 bits wide (index_fields_are_size_t); the only narrower declarations are "
+        "recognised class labels (unsigned int) and the int counters of the two OpenMP loops over batches in transform (assumption: fewer than 2^31 "
+        "batches).  Props/C03Index.lean: the per-element table DataView(dataset) builds with Index fields of wb/wp/wi bits equals the model's table "
+        "whenever #batches <= 2^wb, batch sizes <= 2^wp and n <= 2^wi (view_packed_faithful), instantiated with the regenerated widths for all datasets "
+        "with n < 2^64 (view_faithful_at_source_widths); witnesses that below the width view[i] aliases another element.  "
+        "SCALE FAMILY (harness/c03s.cpp; ORACLE ONLY, no Lean model at this size; the independent oracle is a flat std::vector<(id,label)> per slot, "
+        "exact integer comparison): on every run in both tiers 5 directed histories x {unsigned, RealVector} on counter-valued datasets with ONE BATCH "
+        "of 65537..71536 elements, with 65537+ BATCHES of size 1, the sized constructor, 2^16-1 / 2^16 / 2^16+1 elements in both shapes and 256-element "
+        "batches; every access path (element(i), begin()+i, elements() both directions const/non-const, batches(), inputs()/labels(), iterator jumps "
+        "+= -= + - ++ -- on five iterator flavours to and from positions around 2^16) and every operation of the property (views of four flavours incl. "
+        "batch(i)/positionInBatch(i)/index(i), subsets of subsets, toDataset with batch size 1/default/unlimited, subBatch, randomSubset of more than 2^16 "
+        "elements, writes through dataset and view proxies, splitAtElement/splitBatch/splice at 2^16 and 2^16+1, append, push_back, indexedSubset and "
+        "complement of tens of thousands of batches, repartition one batch <-> unit batches, reorderElements, shuffle, repartitionByClass with a class "
+        "batch above 2^16, binarySubProblem, oneVersusRest, transform) is driven through the 16-bit boundary."),
+  note=TRUST + "translate/index_types.py (clang-14 JSON AST -> list of integer-typed declarations, allowlist of label / OpenMP-counter names) is trusted; "
+       "the scale family is oracle-only (no model run at 2^16 elements): O(#batches) accessors are read at every position only while n*#batches <= 3e6, "
+       "else around multiples of 2^16, batch borders around batch 2^16, the ends and 10 pseudo-random positions; index types narrower than 64 but wider "
+       "than ~17 bits are decided by the static obligation alone (no run reaches 2^32 elements).  "
+       "Covered by the correspondence and the oracle only (modelled, no theorem): Data(n, x, m) being filled through the element iterator, "
        "randomSubset drawing distinct positions (observed draw checked), the value a write through a proxy leaves in the writer itself when it holds "
        "a batch twice, bootstrap (oracle only: weights count k draws), weightedInputs(), the weights container of WeightedLabeledData sharing "
        "exactly like the label container (oracle), binarySubProblem/repartitionByClass at the pointer level (shared inputs, fresh labels; value "
@@ -71,7 +94,8 @@ MANIFEST = dict(
        "while a probe fails the random stream keeps away from its trigger (evidence `stream_avoids_open_findings`) and, for F-C03-16, runs the model "
        "with the unrepaired toDataset shape behaviour (`legacy-v2d-shape`).",
   technique="Lean 4 proofs (induction over partitions and operation histories; simulation of a pointer-sharing model by a value model) on models whose "
-            "batch arithmetic is regenerated from the C++ on every run + differential correspondence with the real containers (ASan/UBSan)",
+            "batch arithmetic and index widths are regenerated from the C++ on every run + differential correspondence with the real containers "
+            "(ASan/UBSan) + a directed oracle-only scale family across the 2^16 boundary",
   design="§6 C03, §14 C03")
 
 FINISH = dict(level="proof",
@@ -474,12 +498,16 @@ def run_open(ctx, exes, drv, feed, extra_driver_args):
 
 def run(ctx):
     ctx.trusted += ["translator translate/batch_arith.py (clang-14 JSON AST -> Lean) for optimalBatchSizes/batchPartitioning",
+                    "translator translate/index_types.py (clang-14 JSON AST -> Gen/IndexTypes.lean: integer-typed declarations of the dataset headers with their widths)",
+                    "scale harness harness/c03s.cpp + checks/c03scale.py (oracle only: flat-vector oracle beside the real containers at 2^16+ elements / batches)",
                     "correspondence harness harness/c03.cpp + generator checks/c03.py (drives the Lean model interactively)",
                     "hand-written models Model/Dataset.lean (values) and Model/DatasetShared.lean (shared batch pointers) for everything except the translated batch arithmetic",
                     "ASan/UBSan runtime for the real code's memory safety (not a theorem)"]
     ctx.assumptions += ["operations respect the C++ preconditions that are SIZE_CHECKs (indices in range, repartition sizes positive and summing to n); "
                         "independence is *not* assumed: makeIndependent() and the 'Container is not Independent' exception are modelled and exercised",
-                        "size_t arithmetic does not overflow 2^64 (all quantities are bounded by the element count)"]
+                        "size_t arithmetic does not overflow 2^64 (all quantities are bounded by the element count); that the C++ keeps every index, position, "
+                        "size and count in 64-bit integers is NOT assumed: it is the regenerated obligation index_fields_are_size_t",
+                        "fewer than 2^31 batches (the two OpenMP loops of transform count batches in `int`)"]
     translate(ctx)
     ctx.prove(PROVE)
     if not ctx.quick:
